@@ -112,6 +112,25 @@ class Gen(histgen.HistGen):
         return ['ApplyDocActions', [['BulkUpdateRecord', tid, rs, cols]]]
     return super(Gen, self).gen(kind, meta)
 
+  def readd_pattern(self, e):
+    """[change an input, force the recalculation, remove the row, add a row with the same id again]: the row id has
+    two lives in one bundle (ActionSummary keeps one delta per cell id)."""
+    meta = histgen.Meta(e)
+    t = self.pick_table(meta)
+    if t is None:
+      return None
+    tid, tref = t['tableId'], t['id']
+    rows, dcols, fcols = meta.rows(tid), meta.data_cols(tref), meta.formula_cols(tref)
+    if not rows or not dcols or not fcols:
+      return None
+    row, c = self.r.choice(rows), self.r.choice(dcols)
+    force = ['CopyFromColumn', tid, self.r.choice(fcols)['colId'], self.r.choice(dcols)['colId'], None]
+    first = [['UpdateRecord', tid, row, {c['colId']: self.value(c['type'], meta)}], force, ['RemoveRecord', tid, row],
+             ['AddRecord', tid, row, {c['colId']: self.value(c['type'], meta)}]]
+    if self.r.random() < 0.4:
+      first = first[2:] + [force, ['RemoveRecord', tid, row]]
+    return first
+
   def failing_tail(self, e):
     meta = histgen.Meta(e)
     return self.gen('invalid', meta) or ['RemoveRecord', 'NoSuchTable', 1]
@@ -161,6 +180,7 @@ def run_bundle(ld, bundle, fault_at=None, hooks=None, on_fail=None):
   r.fired = rec.fired
   r.problems = []
   r.diff_cells = []        # (table, column) in which the tables differ from before
+  r.diff_rows = []         # (table, column, row id) of the differing cells
   r.emitted_cells = []     # (table, column) written by the following Calculate
   if r.raised is not None:
     r.on_fail = on_fail(e) if on_fail is not None else None     # before the oracle's Calculate touches anything
@@ -170,6 +190,7 @@ def run_bundle(ld, bundle, fault_at=None, hooks=None, on_fail=None):
       r.problems.append('tables')
       r.diff = G.diff_snapshots(r.before, after, limit=12)
       r.diff_cells = diff_cells(r.before, after)
+      r.diff_rows = diff_cell_rows(r.before, after)
     if G.engine_schema(e) != r.before_schema:
       r.problems.append('schema')
     try:
@@ -208,6 +229,33 @@ def diff_cells(a, b):
   return out
 
 
+def diff_cell_rows(a, b):
+  """(table, column, row id) of the cells in which two snapshots with the same tables/rows differ."""
+  out = []
+  for t in sorted(set(a) & set(b)):
+    if a[t]['ids'] != b[t]['ids']:
+      continue
+    for c in sorted(set(a[t]['cols']) & set(b[t]['cols'])):
+      va, vb = a[t]['cols'][c], b[t]['cols'][c]
+      if va != vb and isinstance(va, list) and isinstance(vb, list) and len(va) == len(vb):
+        out.extend((t, c, a[t]['ids'][i]) for i, (x, y) in enumerate(zip(va, vb)) if x != y)
+  return out
+
+
+def readded_rows(run):
+  """(table, row id) removed by a completed BulkRemoveRecord and added again by a later completed BulkAddRecord of
+  the failed bundle."""
+  removed, out = set(), set()
+  for d in run.docs:
+    if not d.get('completed') or d.get('phase') != 'actions':
+      continue
+    if d['name'] == 'BulkRemoveRecord':
+      removed |= {(d['args'][0], r) for r in d['args'][1]}
+    elif d['name'] == 'BulkAddRecord':
+      out |= {(d['args'][0], r) for r in d['args'][1] if (d['args'][0], r) in removed}
+  return out
+
+
 # ---------------------------------------------------------------------------------------------------------------
 # where did the fault strike, and which root cause explains a trace
 
@@ -227,6 +275,7 @@ def locate(run, idx):
     prev = d['steps'][:pos]                       # includes the 'doc:' point itself
     loc['doc'] = d['name']
     loc['doc_table'] = d['args'][0]
+    loc['doc_rows'] = list(d['args'][1]) if len(d['args']) > 1 and isinstance(d['args'][1], (list, tuple)) else []
     loc['muts'] = sum(1 for s, _ in prev if s in ('set', 'copy', 'clear'))
     loc['rebuilds'] = sum(1 for s, _ in prev if s == 'rebuild')
     loc['undos'] = sum(1 for s, _ in prev if s.startswith('undo'))
@@ -262,6 +311,13 @@ def classify(loc, run):
      and tables <= {loc['doc_table']} | calc_tables(loc, run):
     # the action wrote cells and its undo is not in the list yet (docactions.py: mutation before undo.append)
     return 'midaction-crash-in-' + doc
+  if doc == 'BulkRemoveRecord' and loc['muts'] > 0 and loc['undos'] == 0 and not injected and \
+     isinstance(run.raised, AssertionError) and 'for non-existent record' in str(run.raised) and \
+     any(str(run.raised).rstrip("')").endswith('#%s' % r) for r in loc.get('doc_rows', [])):
+    # same mechanism, harder consequence: the rows are already out of the table and their undo is not in the list,
+    # so replaying an EARLIER undo action of the bundle on one of them fails its assert: _undo_to_checkpoint raises
+    # and the whole bundle stays applied
+    return 'midaction-crash-in-BulkRemoveRecord'
   if doc in SCHEMA_ACTIONS:
     if loc['undos'] < loc['total_undos'] and loc['rebuilds'] >= 1:
       # schema + Table/Column objects already rebuilt, undo not complete: apply_doc_action restores the schema but
@@ -286,6 +342,17 @@ def classify(loc, run):
   pend = run.pending | set(loc['calc_cells'])
   def is_formula(t, c):
     return bool((run.before_schema.get(t, {}).get(c) or ('', False))[1])
+  readd = readded_rows(run)
+  if readd and run.diff_rows and \
+     set(run.diff_cells) == {(t, c) for (t, c, _r) in run.diff_rows} and \
+     pend and all((t, r) in readd and is_formula(t, c) for (t, c, r) in run.diff_rows) and \
+     all(c is not None and is_formula(t, c) for (t, c) in run.emitted_cells):
+    # a formula cell recomputed inside the bundle whose row was then removed and added again under the same id:
+    # the summary treats the row as preserved and appends the restoring update at the BACK of the undo list (it
+    # runs first); the undo of the BulkRemoveRecord then re-adds the row with the recomputed value it captured
+    # (or, if the row was re-added before the recalculation and removed again, the front restore writes the start
+    # value of the re-added row).  Only formula cells of rows removed AND re-added in the failed bundle differ.
+    return 'recomputed-cell-of-readded-row-not-restored'
   if pend and cells and all((t, c) in pend for (t, c) in run.diff_cells if c is not None) and \
      all(c is not None or any(pt == t for pt, _ in pend) for (t, c) in run.diff_cells) and \
      all((t, c) in pend or (c is not None and is_formula(t, c)) or (c is None and any(pt == t for pt, _ in pend))
@@ -659,6 +726,8 @@ def gen_runs(ctx):
         gen.after_bundle(ld.e)
     for b in range(nb):
       bundle = gen.bundle(ld.e)
+      if ctx.rng.random() < 0.25:
+        bundle = (gen.readd_pattern(ld.e) or []) + bundle
       if ctx.rng.random() < 0.35:
         bundle = bundle + [gen.failing_tail(ld.e)]
       yield ld, bundle
